@@ -72,7 +72,7 @@ pub fn gen_case(seed: u64, tier: Tier) -> (P, Vec<(u64, Op)>) {
     let n = s.range(2, match tier { Tier::Quick => 7, Tier::Thorough => 12 }) as usize;
     let policy = gen_policy(&mut s);
     let codec = *s.pick(&[CodecKind::Wire, CodecKind::Wire, CodecKind::WireDirty, CodecKind::Bincode, CodecKind::Postcard]);
-    let cfg = gen_cfg(&mut s, policy.var_ids || !matches!(codec, CodecKind::Wire | CodecKind::WireDirty));
+    let cfg = gen_cfg(&mut s, policy.var_ids || !codec.is_wire());
     let period = cfg.probe_period.as_millis() as u64;
     let rtt = cfg.probe_rtt.as_millis() as u64;
     // swarm: each fault kind is enabled for this run or not
